@@ -78,6 +78,12 @@ def make_trace(mode: str, detail: str, name: str = "trace"):
         return None
     if mode == "file":
         return JsonlTraceDriver(f"{name}.ser.jsonl", detail=detail)
+    if mode == "chardev":
+        # the trace path names something that is not a regular file (here: a link to the null device, "trace discarded"); the
+        # seam still records every line the driver writes
+        if not os.path.lexists(f"{name}.ser.jsonl"):
+            os.symlink(os.devnull, f"{name}.ser.jsonl")
+        return JsonlTraceDriver(f"{name}.ser.jsonl", detail=detail)
     if mode == "cwd":
         return JsonlTraceDriver(None, detail=detail)     # default: timestamped file in the current directory
     if mode == "dotdir":
@@ -108,6 +114,14 @@ def run_scenario(sc: dict, w, *, trace_mode="file", detail="hash", pipeline=None
     p = pipeline
     if p is None:
         p = make_pipeline(sc["nodes"], trace=trace, orchestrator=orchestrator)
+        # a canonical graph need not be a chain: skip connections (by node position) are appended to the edge list, after the
+        # chain edges, so the in-edges of a fan-in node are not adjacent in the list
+        cs = getattr(p, "canonical_spec", None)
+        if sc.get("extra_edges") and isinstance(cs, dict) and isinstance(cs.get("edges"), list):
+            ids = [nd.get("node_uuid") for nd in cs.get("nodes", [])]
+            for i, j in sc["extra_edges"]:
+                if i < len(ids) and j < len(ids):
+                    cs["edges"].append({"source": ids[i], "target": ids[j]})
     else:
         p.trace = trace
     if payload is None:
